@@ -289,3 +289,60 @@ pub fn run_witnesses(ctx: &Ctx, prop: &str, id: &str, acc: &mut Acc) {
         }
     }
 }
+
+/// Differential over explicit (pattern, texts) pairs at a few start offsets (0, 1, the middle, the
+/// last two boundaries): for families whose texts are too long for the every-offset sweep.
+/// `groups` = false: only the overall span is judged (C01); true: only cases whose span agrees (C02).
+pub fn run_pairs(ctx: &Ctx, prop: &str, items: &[(Node, Vec<String>)], groups: bool, budget: u64) -> Acc {
+    let _ = ctx;
+    par_run(items, true, Some(20_000_000), |_, (p, texts), acc| {
+        refm::F1_COMPAT.with(|c| c.set(false));
+        let s = p.print();
+        let re = match compile(&s) {
+            Got::Val(r) => r,
+            Got::Err(_) => {
+                acc.count("pairs:compile-err");
+                return;
+            }
+            other => {
+                acc.violate(Violation::new(prop, "compile-panic", &s, "", 0, "Regex::new", "Ok or Err".into(), other.show()));
+                return;
+            }
+        };
+        let Some((r, ng)) = refm::compile(p) else { return };
+        acc.count(if route(&re).is_vm() { "pairs:route:vm" } else { "pairs:route:wrapped" });
+        for t in texts {
+            let bs: Vec<usize> = gen::offsets(t).collect();
+            let mut froms = vec![0, *bs.get(1).unwrap_or(&0), bs[bs.len() / 2], bs[bs.len().saturating_sub(2)], bs[bs.len() - 1]];
+            froms.sort();
+            froms.dedup();
+            for from in froms {
+                acc.evals += 1;
+                let (want, _) = refm::search(&r, ng, t, from, false, budget);
+                if want == Out::Inconclusive {
+                    acc.inconclusive += 1;
+                    continue;
+                }
+                let got = captures_from(&re, t, from);
+                let _ = acc.take_hooks();
+                let Some(g) = out_of(&got) else {
+                    if got.is_step_cap() {
+                        acc.inconclusive += 1;
+                    } else {
+                        acc.violate(Violation::new(prop, if got.is_panic() { "panic" } else { "runtime-error" }, &s, t, from, "captures_from_pos", show_out(&want), got.show()));
+                    }
+                    continue;
+                };
+                let span = |o: &Out| match o {
+                    Out::Match(c) => c[0],
+                    _ => None,
+                };
+                let span_differs = span(&g) != span(&want);
+                if (!groups && span_differs) || (groups && !span_differs && g != want) {
+                    acc.violate(Violation::new(prop, if groups { "groups" } else { "span" }, &s, t, from, "captures_from_pos", show_out(&want), show_out(&g)));
+                }
+                acc.count("pairs:compared");
+            }
+        }
+    })
+}
